@@ -62,7 +62,13 @@ partial def objectiveNames (j : Json) : List String :=
 
 def parseProblem (j : Json) : R Problem := do
   let profiles ← listF (fun p => do
-    pure ({ name := ← strF p "name", dur := ← listF asInt p "dur", dist := ← listF asInt p "dist" } : Profile)) j "profiles"
+    -- `errorCodes` of the routing matrix: the reader (fleet_reader.rs) stores -1 as duration and distance of a pair whose code is > 0
+    let errors ← (match p.getObjVal? "errors" with
+      | .ok (.arr a) => a.toList.mapM asInt
+      | _ => pure [])
+    let mask (l : List Int) : List Int :=
+      if errors.isEmpty then l else (l.zip errors).map (fun (v, e) => if e > 0 then -1 else v)
+    pure ({ name := ← strF p "name", dur := mask (← listF asInt p "dur"), dist := mask (← listF asInt p "dist") } : Profile)) j "profiles"
   let relations ← listF (fun r => do
     pure ({ kind := ← strF r "kind", jobs := ← strList r "jobs", vehicleId := ← strF r "vehicle_id",
             shiftIndex := ← optF asNat r "shift_index" } : Relation)) j "relations"
